@@ -464,9 +464,9 @@ void VerletCreator::createDistances()
 	   
 	   // free pairs
 	   size_t listSize = cp->freePairs()[t].size();
+	   cp->freePairsRandom(t).clear();
 	   if(listSize)
 	     {
-	       cp->freePairsRandom(t).clear();
 	       for(size_t __i = 0; __i < listSize; ++__i)
 		 cp->freePairsRandom(t).newEntry().m_val = __i;
 	       for(size_t __i = listSize-1; __i > 0; --__i)
@@ -479,9 +479,9 @@ void VerletCreator::createDistances()
 	     }
 	   // frozen pairs
 	   listSize = cp->frozenPairs()[t].size();
+	   cp->frozenPairsRandom(t).clear();
 	   if(listSize)
 	     {
-	       cp->frozenPairsRandom(t).clear();
 	       for(size_t __i = 0; __i < listSize; ++__i)
 		 cp->frozenPairsRandom(t).newEntry().m_val = __i;
 	       for(size_t __i = listSize-1; __i > 0; --__i)
